@@ -456,9 +456,14 @@ def _run_stream(rec, dones, E, n, gamma, cap, vect, memkind, seed, ctx, check_ev
                 experiences = sampler.sample(B, 0.4)
             else:
                 experiences = sampler.sample(B, return_idx=True)
+            a_obs, a_act = _ids_of(experiences, "obs"), _ids_of(experiences, "action")
+            if not per and (t // 4) % 2 == 1:
+                # double-buffered learner: a second batch is drawn before the n-step rows of the first one are gathered
+                # with the indices that were handed out with it (no addition in between, both buffers unchanged)
+                sampler.sample(B, return_idx=True)
+                rec.hit("paired_batches_gathered_after_a_later_draw")
             n_step_experiences = n_step_sampler.sample(experiences["idxs"])
             rec.hit("paired_batches_checked")
-            a_obs, a_act = _ids_of(experiences, "obs"), _ids_of(experiences, "action")
             b_obs, b_act = _ids_of(n_step_experiences, "obs"), _ids_of(n_step_experiences, "action")
             if (a_obs, a_act) != (b_obs, b_act):
                 rec.violate(
